@@ -406,7 +406,7 @@ func init() {
 			default:
 				var prog func(*core.Rand) []byte
 				if extraProgram != nil {
-					prog = func(rr *core.Rand) []byte { return extraProgram(rr, 5+2*rr.Intn(2)) }
+					prog = func(rr *core.Rand) []byte { return extraProgram(rr, 5+2*rr.Intn(2), rr.Bool()) }
 				}
 				c01Case(c, gen.Hostile(r, prog), c01Versions(r), "hostile")
 			}
